@@ -309,6 +309,45 @@ func genC17(o *Out, rng *rand.Rand, tier string) {
 		}()
 		o.Emit(map[string]any{"op": "AccLabels", "raw": B(raw), "res": res}, "raw-DomainSearch", raw, true)
 	}
+	// DomainSearch set -> get: name lists built from scratch, and lists that have a history (parsed from a packet or
+	// from bytes, encoded before) and are then edited in place before being set on another packet
+	for i := 0; i < 60*variants; i++ {
+		var l *rfc1035label.Labels
+		switch i % 4 {
+		case 0:
+			l = &rfc1035label.Labels{Labels: randNames(rng)}
+		case 1:
+			if q, ok := packetWith(119, (&rfc1035label.Labels{Labels: randNames(rng)}).ToBytes()); ok {
+				l = q.DomainSearch()
+			}
+		case 2:
+			l, _ = rfc1035label.FromBytes((&rfc1035label.Labels{Labels: randNames(rng)}).ToBytes())
+		default:
+			l = &rfc1035label.Labels{Labels: randNames(rng)}
+			_ = l.ToBytes()
+		}
+		if l == nil || len(l.Labels) == 0 {
+			continue
+		}
+		for k := rng.Intn(3); k > 0; k-- {
+			l.Labels[rng.Intn(len(l.Labels))] = randName(rng) // in place
+		}
+		want := namesJSON(l.Labels)
+		res := map[string]any{"ok": false, "v": []any{}}
+		func() {
+			defer func() {
+				if r := recover(); r != nil {
+					res["panic"] = fmt.Sprint(r)
+				}
+			}()
+			p, _ := dhcpv4.New(dhcpv4.WithOption(dhcpv4.OptDomainSearch(l)))
+			if g := p.DomainSearch(); g != nil {
+				res["ok"], res["v"] = true, namesJSON(g.Labels)
+			}
+		}()
+		o.Emit(map[string]any{"op": "SetGet", "acc": "DomainSearch", "val": want, "raw": []int{}, "res": res}, "set-get-names",
+			[]byte(fmt.Sprint("ds", i, want)), true)
+	}
 	// set -> get through the typed constructors
 	n := 40 * variants
 	setget := func(acc string, opt dhcpv4.Option, val any) {
